@@ -107,7 +107,8 @@ class Pproduct(FunctionPattern):  # Was PstepNfunc.
                     inval = yield from self._recgen(
                         inval, level + 1, max_level, patterns, streams, values)
                 else:
-                    inval = yield self.func(values)
+                    # A copy, values is the working list of the recursion.
+                    inval = yield self.func(values[:])
         except stm.StopStream:
             pass
         return inval
